@@ -571,3 +571,18 @@ def run_known_and_rename(work, repo):
                               'verdict': 'differs' if diff else 'same', 'difference': diff[:4] or None, 'dsl': c['text'], 'errors': []})
     shutil.rmtree(root, ignore_errors=True)
     return res
+
+def replay_compile(dsl, feature, work, repo):
+    """compile one definition (with neutral hooks) against /repo's current tree; returns (compiles?, errors)"""
+    d = D.parse_text(dsl)
+    info = T.get_infos([('k', bool(feature), d)]).get('k', {})
+    src = PRELUDE_STD + 'pub mod dfn {\nuse super::*;\nuse state_machines::state_machine;\nstate_machine! {\n' + dsl + '\n}\n'
+    if 'name' in info:
+        src += hooks_impl(d, info) + '\n'
+    src += '}\nfn main() {}\n'
+    root = os.path.join(work, 't4replay')
+    shutil.rmtree(root, ignore_errors=True)
+    write_crate(os.path.join(root, 'c'), src, repo, bool(feature))
+    ok, errs, stderr = cargo_check(os.path.join(root, 'c'), os.path.join(root, 'tgt'))
+    shutil.rmtree(root, ignore_errors=True)
+    return ok, [f"{e['code']}: {e['msg']}" for e in errs[:4]]
